@@ -3,6 +3,7 @@ import PQ.Model.Snappy
 import PQ.Model.Reader
 import PQ.Props.C07
 import PQ.Lemmas.Thrift
+import PQ.Lemmas.Dremel
 import PQ.Lemmas.Segment
 import PQ.Lemmas.SnappyRT
 /-!
@@ -18,6 +19,9 @@ The theorems quantify over *all* choice streams.
 * `segment_spec`: every run segmentation the writer can choose is a well-formed encoding of the same levels.
 * `levels_any_segmentation`, `readLevels_any_segmentation`: the library's level decoder (`RLE.Read` /
   `readLevels`) returns the same levels for every one of them.
+* `specPage_levels`, `specPage_levels_flat`: the raw page the spec writer emits (any choices, statistics
+  or not, extra fields or not) starts with level sections that `readLevels` decodes to the entries' levels,
+  followed by the PLAIN values.
 * `snappy_roundtrip`: every literal/copy segmentation the snappy encoder can choose decodes to the input.
 * `unknown_fields_skipped*`, `statistics_irrelevant*`: presence or absence of statistics and of unknown /
   optional thrift fields does not change what the reader extracts from footer and page headers.
@@ -96,6 +100,78 @@ theorem readLevels_take (w : Nat) (hw : 1 ≤ w ∧ w ≤ 4) (padv : Nat) (hp : 
       ∧ xs.length ≤ lv.length ∧ lv.take xs.length = xs := by
   obtain ⟨pad, _, h⟩ := readLevels_any_segmentation w hw padv hp fuel cs xs hx hf hlen pre rest
   exact ⟨_, h, by simp, by simp⟩
+
+/-- **Page level**: the raw (uncompressed) page the spec writer emits for an optional, possibly repeated
+column — for every choice stream (run segmentation of both level streams), every padding value, with
+or without statistics / extra fields, any mutation of the header — starts with level sections from
+which the reader's `readLevels` recovers exactly the repetition and definition levels of the page's
+entries (plus fewer than 8 padding values each), followed by the PLAIN values. -/
+theorem specPage_levels (cfg : SWCfg) (c : Col) (codec : Nat) (compress : Bytes → Bytes) (mu : Mutation)
+    (cs : Choices) (es : List (Entry Bytes)) (hrep : c.maxRep > 0) (hopt : c.isRequired = false)
+    (hwr : 1 ≤ bitsLen c.maxRep ∧ bitsLen c.maxRep ≤ 4) (hwd : 1 ≤ bitsLen c.maxDef ∧ bitsLen c.maxDef ≤ 4)
+    (hx : ∀ e ∈ es, e.rep ≤ c.maxRep ∧ e.dl ≤ c.maxDef) (hlen : es.length + 8 ≤ 2 ^ 28) :
+    ∃ p1 p2 l1 l2, p1 < 8 ∧ p2 < 8 ∧
+      readLevelsAt (bitsLen c.maxRep) (specPageBytes cfg c codec compress mu cs es).2.1 0
+        = .ok (es.map (·.rep) ++ List.replicate p1 (cfg.padv % 2 ^ bitsLen c.maxRep), l1)
+      ∧ readLevelsAt (bitsLen c.maxDef) (specPageBytes cfg c codec compress mu cs es).2.1 l1
+        = .ok (es.map (·.dl) ++ List.replicate p2 (cfg.padv % 2 ^ bitsLen c.maxDef), l2)
+      ∧ (specPageBytes cfg c codec compress mu cs es).2.1.drop (l1 + l2) = plainValues c.ty (nonNull es) := by
+  have hraw : (specPageBytes cfg c codec compress mu cs es).2.1
+      = levelSection (bitsLen c.maxRep)
+          (segment (cfg.padv % 2 ^ bitsLen c.maxRep) (es.length + 1) cs (es.map (·.rep))).1
+        ++ levelSection (bitsLen c.maxDef)
+          (segment (cfg.padv % 2 ^ bitsLen c.maxDef) (es.length + 1)
+            (segment (cfg.padv % 2 ^ bitsLen c.maxRep) (es.length + 1) cs (es.map (·.rep))).2 (es.map (·.dl))).1
+        ++ plainValues c.ty (nonNull es) := by
+    unfold specPageBytes
+    simp [hrep, hopt]
+  rw [hraw]
+  generalize (segment (cfg.padv % 2 ^ bitsLen c.maxRep) (es.length + 1) cs (es.map (·.rep))).2 = cs'
+  have hr : ∀ x ∈ es.map (·.rep), x < 2 ^ bitsLen c.maxRep := by
+    intro x hx'
+    obtain ⟨e, he, rfl⟩ := List.mem_map.mp hx'
+    exact Nat.lt_of_le_of_lt (hx e he).1 (lt_two_pow_bitsLen _)
+  have hd : ∀ x ∈ es.map (·.dl), x < 2 ^ bitsLen c.maxDef := by
+    intro x hx'
+    obtain ⟨e, he, rfl⟩ := List.mem_map.mp hx'
+    exact Nat.lt_of_le_of_lt (hx e he).2 (lt_two_pow_bitsLen _)
+  obtain ⟨p1, hp1, h1⟩ := readLevels_any_segmentation (bitsLen c.maxRep) hwr (cfg.padv % 2 ^ bitsLen c.maxRep)
+    (Nat.mod_lt _ (Nat.two_pow_pos _)) (es.length + 1) cs (es.map (·.rep)) hr (by simp) (by simpa using hlen) []
+    (levelSection (bitsLen c.maxDef) (segment (cfg.padv % 2 ^ bitsLen c.maxDef) (es.length + 1) cs' (es.map (·.dl))).1
+      ++ plainValues c.ty (nonNull es))
+  obtain ⟨p2, hp2, h2⟩ := readLevels_any_segmentation (bitsLen c.maxDef) hwd (cfg.padv % 2 ^ bitsLen c.maxDef)
+    (Nat.mod_lt _ (Nat.two_pow_pos _)) (es.length + 1) cs' (es.map (·.dl)) hd (by simp) (by simpa using hlen)
+    (levelSection (bitsLen c.maxRep) (segment (cfg.padv % 2 ^ bitsLen c.maxRep) (es.length + 1) cs (es.map (·.rep))).1)
+    (plainValues c.ty (nonNull es))
+  refine ⟨p1, p2, _, _, hp1, hp2, ?_, h2, ?_⟩
+  · simpa [List.append_assoc] using h1
+  · rw [← List.length_append, List.drop_left]
+
+/-- the same for an optional column without repeated ancestors (definition levels only) -/
+theorem specPage_levels_flat (cfg : SWCfg) (c : Col) (codec : Nat) (compress : Bytes → Bytes) (mu : Mutation)
+    (cs : Choices) (es : List (Entry Bytes)) (hrep : c.maxRep = 0) (hopt : c.isRequired = false)
+    (hwd : 1 ≤ bitsLen c.maxDef ∧ bitsLen c.maxDef ≤ 4)
+    (hx : ∀ e ∈ es, e.dl ≤ c.maxDef) (hlen : es.length + 8 ≤ 2 ^ 28) :
+    ∃ p l, p < 8 ∧
+      readLevelsAt (bitsLen c.maxDef) (specPageBytes cfg c codec compress mu cs es).2.1 0
+        = .ok (es.map (·.dl) ++ List.replicate p (cfg.padv % 2 ^ bitsLen c.maxDef), l)
+      ∧ (specPageBytes cfg c codec compress mu cs es).2.1.drop l = plainValues c.ty (nonNull es) := by
+  have hraw : (specPageBytes cfg c codec compress mu cs es).2.1
+      = levelSection (bitsLen c.maxDef)
+          (segment (cfg.padv % 2 ^ bitsLen c.maxDef) (es.length + 1) cs (es.map (·.dl))).1
+        ++ plainValues c.ty (nonNull es) := by
+    unfold specPageBytes
+    simp [hrep, hopt]
+  rw [hraw]
+  have hd : ∀ x ∈ es.map (·.dl), x < 2 ^ bitsLen c.maxDef := by
+    intro x hx'
+    obtain ⟨e, he, rfl⟩ := List.mem_map.mp hx'
+    exact Nat.lt_of_le_of_lt (hx e he) (lt_two_pow_bitsLen _)
+  obtain ⟨p, hp, h⟩ := readLevels_any_segmentation (bitsLen c.maxDef) hwd (cfg.padv % 2 ^ bitsLen c.maxDef)
+    (Nat.mod_lt _ (Nat.two_pow_pos _)) (es.length + 1) cs (es.map (·.dl)) hd (by simp) (by simpa using hlen) []
+    (plainValues c.ty (nonNull es))
+  refine ⟨p, _, hp, by simpa using h, ?_⟩
+  rw [List.drop_left]
 
 /-! ## 3. every snappy stream the encoder can emit -/
 
